@@ -719,6 +719,22 @@ package server
 //@   requires s != nil && params != nil && DocSmall(s, params.TextDocument.URI)
 //@   requires hasDoc(s, params.TextDocument.URI) ==> len(docOf(s, params.TextDocument.URI)) < 1073741820
 
+// Rename asks the same search (declarations included) and turns every location into one edit carrying the new name,
+// filed under the location's own URI: every edit is the edit of a location, and every URI gets as many edits as it has
+// locations.
+//@ specdef cntLoc(ls []protocol.Location, i int, u protocol.DocumentURI) int := ite(i <= 0, 0, cntLoc(ls, i - 1, u) + ite(ls[i - 1].URI == u, 1, 0))
+//@ func (*Server).Rename
+//@   props C09
+//@   requires s != nil && params != nil && DocSmall(s, params.TextDocument.URI)
+//@   requires hasDoc(s, params.TextDocument.URI) ==> len(docOf(s, params.TextDocument.URI)) < 1073741820
+//@   ensures [C09:edits_carry_new_name] result0 != nil ==> (forall u protocol.DocumentURI, k int :: {result0.Changes[u][k]} has(result0.Changes, u) && 0 <= k && k < len(result0.Changes[u]) ==> result0.Changes[u][k].NewText == params.NewName)
+//@   loop 1 invariant 0 - 1 <= rangeindex && rangeindex <= len(locations) - 1 && changes != nil && fresh(changes)
+//@   loop 1 invariant [C09:edits_carry_new_name] forall u protocol.DocumentURI, k int :: {changes[u][k]} has(changes, u) && 0 <= k && k < len(changes[u]) ==> changes[u][k].NewText == params.NewName
+//@   loop 1 invariant [C09:every_edit_is_a_location] forall u protocol.DocumentURI, k int :: {changes[u][k]} has(changes, u) && 0 <= k && k < len(changes[u]) ==> (exists i int :: {locations[i]} 0 <= i && i <= rangeindex && locations[i].URI == u && locations[i].Range == changes[u][k].Range)
+//@   loop 1 invariant [C09:one_edit_per_location] forall u protocol.DocumentURI :: {cntLoc(locations, rangeindex + 1, u)} len(changes[u]) == cntLoc(locations, rangeindex + 1, u)
+//@   loop 1 exhaustive
+//@   loop 1 decreases len(locations) - rangeindex
+
 // ---- C20: hover figures are aggregates over the whole include tree ----
 // When the server has a resolved tree for the document (the workspace's, else the document's own), the transaction list
 // the hover text is built from is that tree's list - the tree as resolved, not a variant of it - and the balances shown
